@@ -1215,25 +1215,19 @@ fn get_nonterminals_resolution_order(
     let mut path: Vec<(Ustr, HumanSpan)> = Default::default();
 
     let not_depended_on_vars = get_not_depended_on_nonterminals(&dependency_graph);
-    if not_depended_on_vars.is_empty() {
-        // Take any vertex and compute a sample cycle to illustrate to the user
-        let any_vertex = dependency_graph.keys().next().unwrap();
-        path.push((
-            *any_vertex,
-            nonterminal_definitions.get(any_vertex).unwrap().lhs_span,
-        ));
-        traverse_nonterminal_dependencies_dfs(
-            *any_vertex,
-            &dependency_graph,
-            &mut path,
-            &mut visited,
-            &mut result,
-        )?;
-        unreachable!();
-    }
 
-    for vertex in not_depended_on_vars {
-        debug_assert!(!visited.contains(&vertex));
+    // Start from the nonterminals nothing depends on; they yield the resolution order.  Whatever
+    // is not reachable from them can only exist if there is a cycle, so keep traversing from every
+    // vertex not visited yet and let the traversal report it.
+    let remaining: Vec<Ustr> = dependency_graph
+        .keys()
+        .copied()
+        .filter(|vertex| !not_depended_on_vars.contains(vertex))
+        .collect();
+    for vertex in not_depended_on_vars.into_iter().chain(remaining) {
+        if visited.contains(&vertex) {
+            continue;
+        }
         path.push((
             vertex,
             nonterminal_definitions.get(&vertex).unwrap().lhs_span,
